@@ -446,7 +446,7 @@ func nbytes(f *gcs.Filter) []byte {
 }
 
 var kinds = []string{"good", "good", "good", "good", "good", "good", "flip", "trunc", "empty", "badvarint", "noncanon", "hugeN",
-	"other", "alt", "wrongtype", "unsolicited", "outofrange", "nonmsg", "extend"}
+	"other", "alt", "wrongtype", "unsolicited", "outofrange", "nonmsg", "extend", "shift", "shift"}
 
 func (w *world) mkResp(t *tr.W, r *rand.Rand, h int, lo, hi int) resp {
 	u := w.u
@@ -482,6 +482,19 @@ func (w *world) mkResp(t *tr.W, r *rand.Rand, h int, lo, hi int) resp {
 		return w.mkCF(t, wire.GCSFilterRegular, u.hashes[h], append([]byte{0xfd, 0x01, 0x00}, good[1:]...), kind)
 	case "hugeN":
 		return w.mkCF(t, wire.GCSFilterRegular, u.hashes[h], []byte{0xff, 0, 0, 0, 0, 1, 0, 0, 0}, kind)
+	case "shift":
+		// the genuine filter of a block a few heights away, labelled as block h
+		j := h - 1 - r.Intn(6)
+		if r.Intn(4) == 0 {
+			j = h + 1 + r.Intn(6)
+		}
+		if j < 1 {
+			j = 1
+		}
+		if j > uniBlocks {
+			j = uniBlocks
+		}
+		return w.mkCF(t, wire.GCSFilterRegular, u.hashes[h], nbytes(u.truF[j]), kind)
 	case "other":
 		j := 1 + r.Intn(uniBlocks)
 		return w.mkCF(t, wire.GCSFilterRegular, u.hashes[h], nbytes(u.truF[j]), kind)
@@ -805,6 +818,29 @@ func runCase(t *tr.W, r *rand.Rand, mode string) {
 		if known {
 			lo, hi = aim(target, best, batch, maxBatch)
 		}
+		// Overlap with what is already held: before a batch, fetch (honestly, one by one) the filters
+		// of one or two blocks of the coming range — at its front, in the middle, at its end —
+		// so that the batch runs over a range that is partly cached.
+		cachedAt := 0
+		if known && regular && batch != "n" && hi > lo && hi-lo <= 24 && r.Intn(2) == 0 {
+			var spots []int
+			for _, h := range []int{lo, lo + 1, (lo + hi) / 2, hi - 1, hi} {
+				if h != target && h >= lo && h <= hi && h >= 1 {
+					spots = append(spots, h)
+				}
+			}
+			for n := 1 + r.Intn(2); n > 0 && len(spots) > 0; n-- {
+				h := spots[r.Intn(len(spots))]
+				pre := []resp{w.mkCF(t, wire.GCSFilterRegular, u.hashes[h], nbytes(u.truF[h]), "good")}
+				obs := w.get(t, h, u.hashes[h], true, "n", 0, false, "nil", pre)
+				t.Op(fmt.Sprintf("get %d 1 n 0 0 nil [%s]", h, pre[0].tok), obs)
+				t.Hit("cf.precache." + map[bool]string{true: "front", false: "inner"}[h == lo] + map[bool]string{true: ".end", false: ""}[h == hi])
+				if strings.HasPrefix(obs, "HANG") || strings.HasPrefix(obs, "PANIC") {
+					return
+				}
+				cachedAt = h
+			}
+		}
 		var resps []resp
 		style := r.Intn(10)
 		switch {
@@ -832,6 +868,28 @@ func runCase(t *tr.W, r *rand.Rand, mode string) {
 				resps = append(resps, w.mkCF(t, wire.GCSFilterRegular, u.hashes[h], nbytes(u.truF[h]), "good"))
 				if r.Intn(10) == 0 && hi-lo < 50 {
 					resps = append(resps, w.mkResp(t, r, h, lo, hi))
+				}
+			}
+		case style == 4 && hi > lo && hi-lo <= 60:
+			// the whole range relabelled: block h is answered with the genuine filter of block h-k
+			// (or h+k), possibly followed by the honest answers
+			k := 1 + r.Intn(6)
+			if cachedAt > 0 && cachedAt >= lo && r.Intn(2) == 0 {
+				k = cachedAt - lo + 1 // as many positions as filters that need not be fetched again
+			}
+			if r.Intn(5) == 0 {
+				k = -k
+			}
+			for h := lo; h <= hi; h++ {
+				j := h - k
+				if j < 1 || j > uniBlocks {
+					continue
+				}
+				resps = append(resps, w.mkCF(t, wire.GCSFilterRegular, u.hashes[h], nbytes(u.truF[j]), "relabelled"))
+			}
+			if r.Intn(2) == 0 {
+				for h := lo; h <= hi; h++ {
+					resps = append(resps, w.mkCF(t, wire.GCSFilterRegular, u.hashes[h], nbytes(u.truF[h]), "good"))
 				}
 			}
 		default:
@@ -871,6 +929,10 @@ func init() {
 		n := tr.EnvInt("VERIF_BUDGET", 1) * tr.EnvInt("CF_CASES", 240)
 		if thorough {
 			n *= 10
+		}
+		if os.Getenv("VERIF_SEARCH") != "" && n > 3*tr.EnvInt("CF_CASES", 240) {
+			// bin/check's search pass after a broken tie (budget x10, thorough): keep a failing quick run short
+			n = 3 * tr.EnvInt("CF_CASES", 240)
 		}
 		for i := 0; i < n; i++ {
 			switch {
